@@ -78,6 +78,31 @@ def bodies(lines):
     return [split_indent(line)[1] for line in lines]
 
 
+_DEF_HEAD = re.compile(r'^\[([^\[\]\\]*)\]:(.*)$')
+
+
+def surely_no_definition(line):
+    """True only for first lines '[label]:...' that certainly are no link reference definition (spec 4.7): the label is
+    blank, or what follows the colon begins with a bare word that cannot be a destination because its parentheses do not
+    balance, or a plain destination is followed by a word that cannot begin a title.  Everything else: False."""
+    m = _DEF_HEAD.match(line)
+    if not m:
+        return False
+    label, rest = m.group(1), m.group(2)
+    if label.strip() == '':
+        return True
+    words = rest.split()
+    if not words or any(c in w for w in words[:2] for c in '<>\\[]'):
+        return False
+    depth, low = 0, 0
+    for c in words[0]:
+        depth += (c == '(') - (c == ')')
+        low = min(low, depth)
+    if depth != 0 or low < 0:
+        return True
+    return len(words) >= 2 and '(' not in words[0] and words[1][0] not in '"\'('
+
+
 def not_inert_reason(lines):
     """None if CommonMark gives no part of this paragraph a meaning (conservative: may reject inert paragraphs).
     Lines may be indented with spaces / tabs: up to 3 columns anywhere, and 4 or more on a continuation line,
@@ -116,8 +141,9 @@ def not_inert_reason(lines):
             return 'code fence'
         if line.startswith('<') and len(line) > 1 and (line[1].isalpha() or line[1] in '/!?'):
             return 'possible HTML block'
-        if line.startswith('[') and ']:' in line:
+        if i == 0 and line.startswith('[') and ']:' in line and not surely_no_definition(line):
             return 'possible link reference definition'
+        # (on a continuation line '[x]: y' is text: a definition cannot interrupt a paragraph)
     lines = bodies(lines)
     text = '\n'.join(lines)
     if '<em>' in emphasis.model(text) or '<strong>' in emphasis.model(text):
@@ -125,7 +151,7 @@ def not_inert_reason(lines):
     runs = [len(m) for m in _BACKTICKS.findall(text)]
     if len(runs) != len(set(runs)):
         return 'code span'
-    if '](' in text or '][' in text or ']:' in text:
+    if '](' in text or '][' in text:
         return 'link syntax'
     for m in re.finditer(r'<', text):
         nxt = text[m.end():m.end() + 1]
@@ -157,10 +183,23 @@ def indent(t, first):
     return t.choice(INDENTS[:9] if first else INDENTS)
 
 
+def label_colon_line(t):
+    """a first line that looks like the beginning of a link reference definition and is none: 'Bob: :(' written with a
+    bracketed name, a numbered remark '[1]: (see', a blank label"""
+    label = t.choice(['[Bob]:', '[1]:', '[x y]:', '[note]:', '[ ]:', '[]:', '[\u4e2d]:'])
+    sep = t.choice([' ', ' ', '', '  '])
+    if label in ('[ ]:', '[]:'):
+        return label + ' ' + ' '.join(t.choice(VOCAB) for _ in range(1 + t.below(3)))
+    if t.chance(150):
+        return label + sep + t.choice([':(', '(see', 'f(x', '((a)', ':)', 'x)', '(', ')', 'a(b(c)', '(a))', ':-(', 'f(x,y'])
+    return label + sep + t.choice(['word', 'see', 'x', 'a/b', 'e.g.', '42']) + ' ' + ' '.join(
+        t.choice(['word', 'below', 'x', 'and', '1.5', 'a.', '-', '=', '#']) for _ in range(1 + t.below(3)))
+
+
 class Prose(HypPart):
     name = 'prose'
     budget = {'quick': 9000, 'thorough': 500000}
-    required_labels = {'continuation-indented>=4': 0.03, 'indented<4': 0.05}
+    required_labels = {'continuation-indented>=4': 0.03, 'indented<4': 0.05, 'label-colon-first-line': 0.005}
     rule = ('paragraphs of 1-4 lines (each optionally indented by spaces / tabs) of 1-8 tokens (single spaces) from a vocabulary of ~%d tricky-but-inert tokens, kept only if an '
             'independent spec-derived predicate finds no live construct; oracle: output == <p>escaped text</p> exactly; '
             'non-trivial = >= 3 distinct punctuation-bearing tokens; distinct = distinct paragraph' % len(VOCAB))
@@ -174,6 +213,8 @@ class Prose(HypPart):
             lines = []
             for _ in range(t.weighted([(3, 1), (3, 2), (2, 3), (1, 4)])):
                 lines.append(indent(t, not lines) + ' '.join(t.choice(VOCAB) for _ in range(1 + t.below(8))))
+            if t.chance(16):
+                lines[0] = indent(t, True) + label_colon_line(t)
             yield {'lines': lines}
 
     def check(self, case):
@@ -190,6 +231,8 @@ class Prose(HypPart):
             labels += ('continuation-indented>=4',)
         if any(0 < split_indent(x)[0] < 4 for x in lines):
             labels += ('indented<4',)
+        if _DEF_HEAD.match(split_indent(lines[0])[1]):
+            labels += ('label-colon-first-line',)
         text = '\n'.join(lines)
         try:
             got, _ = renderers.render('Html', {}, text)
